@@ -32,12 +32,18 @@ type c42Run struct {
 	stats    *verifh.Stats
 	nfail    int
 	distinct map[string]bool
+	class    string // when set: the class of every failure (decided by the service under test, see literals())
 }
 
 func (h *c42Run) fail(class, what, input, got, want string) {
+	if h.class != "" {
+		class = h.class
+	}
+
 	h.stats.Inc("failures." + class)
 
-	if h.nfail++; h.nfail <= 40 {
+	// at most 15 reports per class (a known class must never use up the room of an unknown one)
+	if h.nfail++; h.stats.M["failures."+class] <= 15 {
 		h.fails.Write(verifh.Failure{Class: class, What: what, Input: input, Got: got, Want: want})
 	}
 }
@@ -117,40 +123,49 @@ func (h *c42Run) batch(w *c42World, solo *c42World, qs []c42Req, procs int, tag 
 			}
 		}
 
-		if q.Fail {
-			if got[i].code != 500 {
-				h.fail("failing-request-not-500", "a request whose service divides by zero did not get 500", input, fmt.Sprint(got[i].code, " ", got[i].body), "500")
-			}
-
-			for _, m := range others {
-				if strings.Contains(got[i].body, m) {
-					h.fail("response-contains-another-requests-data", "error response contains another request's marker "+m, input, got[i].body, "")
-				}
-			}
-
-			continue
-		}
-
-		wc, wb := c42Expect(s, q)
-		if got[i].code != wc || got[i].body != wb || got[i].hdr != q.A {
-			h.fail(c42Classify(got[i].body, wb, others), "concurrent response differs from the reference computed from the request alone",
-				input, fmt.Sprintf("%d %s [X-C42=%s]", got[i].code, got[i].body, got[i].hdr), fmt.Sprintf("%d %s [X-C42=%s]", wc, wb, q.A))
-
-			continue
-		}
-
-		// (b) the same request alone on a cold cache (the twin service has its own cache key)
-		serviceCacheMutex.Lock()
-		delete(ServiceCache, solo.Svcs[q.Svc].pattern())
-		serviceCacheMutex.Unlock()
-
-		if alone := solo.answer(q); alone != got[i] {
-			h.fail(c42Classify(got[i].body, alone.body, others), "concurrent response differs from the response to the same request served alone",
-				input, fmt.Sprintf("%d %s", got[i].code, got[i].body), fmt.Sprintf("%d %s", alone.code, alone.body))
-		}
-
-		h.stats.Inc("requests.compared-alone")
+		h.judge(w, solo, q, got[i], others, input, "concurrent")
 	}
+}
+
+// judge applies the three oracles to the answer `got` of request q; others are the markers of the
+// requests whose data must not show up in it (the rest of the batch, or the earlier requests of
+// a serial sequence).
+func (h *c42Run) judge(w *c42World, solo *c42World, q c42Req, got c42Answer, others []string, input, how string) {
+	s := w.Svcs[q.Svc]
+
+	if q.Fail {
+		if got.code != 500 {
+			h.fail("failing-request-not-500", "a request whose service divides by zero did not get 500", input, fmt.Sprint(got.code, " ", got.body), "500")
+		}
+
+		for _, m := range others {
+			if strings.Contains(got.body, m) {
+				h.fail("response-contains-another-requests-data", "error response contains another request's marker "+m, input, got.body, "")
+			}
+		}
+
+		return
+	}
+
+	wc, wb := c42Expect(s, q)
+	if got.code != wc || c42Head(got.body) != wb || got.hdr != q.A {
+		h.fail(c42Classify(c42Head(got.body), wb, others), how+" response differs from the reference computed from the request alone",
+			input, fmt.Sprintf("%d %s [X-C42=%s]", got.code, got.body, got.hdr), fmt.Sprintf("%d %s [X-C42=%s]", wc, wb, q.A))
+
+		return
+	}
+
+	// (b) the same request alone on a cold cache (the twin service has its own cache key)
+	serviceCacheMutex.Lock()
+	delete(ServiceCache, solo.Svcs[q.Svc].pattern())
+	serviceCacheMutex.Unlock()
+
+	if alone := solo.answer(q); alone != got {
+		h.fail(c42Classify(got.body, alone.body, others), how+" response differs from the response to the same request served alone",
+			input, fmt.Sprintf("%d %s", got.code, got.body), fmt.Sprintf("%d %s", alone.code, alone.body))
+	}
+
+	h.stats.Inc("requests.compared-alone")
 }
 
 func TestVerifC42(t *testing.T) {
@@ -178,6 +193,8 @@ func TestVerifC42(t *testing.T) {
 	MaxCachedEntries = 20
 
 	worlds := verifh.N(5, 24)
+
+	h.literals(sfx) // first: its services are the smallest failing inputs
 
 	if sfx == "" {
 		h.histories()
@@ -248,9 +265,14 @@ func TestVerifC42(t *testing.T) {
 			h.batch(w, solo, qs, procs, fmt.Sprintf("world=%d round=%d", wi, round))
 			h.stats.Inc("batches")
 
-			if len(h.stats.S) < 4 && (len(svcs[qs[0].Svc].Vars) > 0 || len(h.stats.S) == 0) {
+			if len(h.stats.S) < 7 && (len(svcs[qs[0].Svc].Vars) > 0 || len(h.stats.S) == 0) {
 				h.stats.Sample(map[string]any{"service": svcs[qs[0].Svc].pattern(), "batch": n, "gomaxprocs": procs, "first": qs[0].describe(svcs[qs[0].Svc])})
 			}
+		}
+
+		// quiescent: whatever is cached now has served many requests; its constants must be those of a fresh compilation
+		for _, s := range svcs {
+			h.probe(w, s, fmt.Sprintf("world=%d after %d concurrent rounds || service:\n%s", wi, verifh.N(6, 14), s.source()))
 		}
 	}
 }
